@@ -14,6 +14,21 @@ CHECKS["C09"] = dict(
    text="Exploration: each case is a generated valid layout (main package, imports, an import of an import, previous versions, several files) plus exactly one injected violation out of ~50 documented rules, nested inside 0-3 generated wrappers (containers, union cases, generic arguments) and placed in a generated package/file; the un-mutated control layout must be accepted, the mutated one must exit non-zero with an error naming a file of the package that contains the violation. Thousands of (rule, position) combinations per run.",
    note="trusted: the rule table transcribed from docs/*/language.md and yardl's own messages; only 'rejected + file of the offending package named' is asserted, secondary errors are accepted",
    ref="DESIGN.md section 3 (C09)")
+CHECKS["C11"] = dict(
+   technique="property-based fault injection: generated invalid packages x generated output configurations x pre-populated output states, oracle = exit status and recursive file-system snapshot equality",
+   text="Exploration: each case draws an invalid layout (a rule violation in the main package, an import, an import of an import or a previous version, or a breaking change that only the evolution check sees), an output configuration (any subset of cpp/python/matlab/json; separate, shared or in-package directories; cpp options; -c overrides) and an initial output state (absent, empty, populated by a successful generate of a different valid model so that overwriting and stale-file deletion are observable). Oracle: `yardl generate` exits non-zero and the recursive (path, sha256, mode, size, mtime_ns) snapshot of the whole layout root is identical before and after.",
+   note="trusted: the snapshot covers everything under the layout root; $HOME/.yardl is outside and not inspected",
+   ref="DESIGN.md section 3 (C11)")
+CHECKS["C12"] = dict(
+   technique="property-based differential testing of repeated executions (each execution = a new random Go map iteration order), oracle = byte equality of outputs/diagnostics and mtime stability",
+   text="Exploration: packages generated to have many entries in every map yardl iterates (up to 14 definitions, unions of several arities, 1-3 previous versions each with several accepted changes, or several simultaneous errors in different files) are generated N times by fresh CLI processes; exit status, stdout/stderr text and the sha256 of every generated file (C++ incl. HDF5, Python, MATLAB, JSON) must be identical across runs, and one more run into the populated tree must leave every mtime unchanged.",
+   note="N (5 quick / 12 thorough) samples of the map-order space per package; a nondeterminism needing more samples is missed",
+   ref="DESIGN.md section 3 (C12)")
+CHECKS["C13"] = dict(
+   technique="metamorphic property-based testing: one generated model IR emitted in two spellings, oracle = equal verdict and byte-identical generated trees / identical embedded schemas",
+   text="Exploration: a generated model is written twice - plain vs randomly respelled at every decision point (shorthand/expanded per type node, primitive alias names, [null,T], !generic, quoting, flow/block, dimension syntaxes, noise comments and blank lines), or in a random definition order and file distribution. Oracle: same accept/reject verdict (1 in 5 models carries an injected violation); pure-syntax respelling => every generated C++/Python/MATLAB file byte-identical; reorder/re-split => the schema literal of every protocol identical in the C++, Python and MATLAB output.",
+   note="trusted: the harness's YAML emitter really produces equivalent spellings (validated by the generator-soundness self test); wire behaviour of re-ordered models is covered by the run-time legs",
+   ref="DESIGN.md section 3 (C13)")
 NOT_YET = {}
 
 props = [json.loads(l) for l in open("properties.jsonl")]
